@@ -108,7 +108,7 @@ def run_socks(ctx, exe, wd, units, label):
         fin, fout = os.path.join(wd, "%s_in_%d.ndjson" % (label, rnd)), os.path.join(wd, "%s_out_%d.ndjson" % (label, rnd))
         rnd += 1
         vlib.write_ndjson(fin, pending)
-        rc, log = child(exe, "TestHostileSocks", fin, fout, timeout=2400, extra_env={"VERIF_PAR": "16" if len(pending) > 16 else "1"})
+        rc, log = child(exe, "TestHostileSocks", fin, fout, timeout=1200, extra_env={"VERIF_PAR": "16" if len(pending) > 16 else "1"})
         evs = vlib.read_ndjson(fout) if os.path.exists(fout) else []
         events += evs
         finished = {e["id"] for e in evs if e["ev"] == "R"}
